@@ -318,7 +318,7 @@ fn check_cli(c: &Case, ctx: &Ctx) -> Outcome {
     if variant & 2 == 2 {
         for f in [&mut f1, &mut f2] {
             let gz = format!("{f}.gz");
-            cli::gzip(std::path::Path::new(f.as_str()), std::path::Path::new(&gz));
+            if m.reads.len() % 2 == 0 { cli::gzip(std::path::Path::new(f.as_str()), std::path::Path::new(&gz)) } else { cli::gzip_members(std::path::Path::new(f.as_str()), std::path::Path::new(&gz), 2) }
             *f = gz;
         }
     }
